@@ -56,9 +56,33 @@ impl M {
     pub fn same_shape(&self, o: &M) -> bool {
         self.r == o.r && self.c == o.c
     }
+    /// Printed in full up to `SHOW_FULL` entries (every operand of every tier is); larger values
+    /// (results of long outer products) are abbreviated: violation lines and replay descriptions
+    /// must stay small (the driver reads a replay's output only after it has exited).
     pub fn show(&self) -> String {
-        format!("{}x{}{:?}", self.r, self.c, self.rows())
+        if self.v.len() <= SHOW_FULL {
+            return format!("{}x{}{:?}", self.r, self.c, self.rows());
+        }
+        let row = |i: usize| abbr(&self.row(i), 6, 3);
+        let mut rows: Vec<String> = (0..self.r.min(4)).map(row).collect();
+        if self.r > 6 {
+            rows.push(format!("..{} more rows..", self.r - 6));
+        }
+        rows.extend((self.r.max(6) - 2..self.r).map(row));
+        format!("{}x{}[{}]", self.r, self.c, rows.join(", "))
     }
+}
+
+pub const SHOW_FULL: usize = 520;
+
+/// `v` with only its first `head` and last `tail` entries when it is longer than that.
+pub fn abbr(v: &[f64], head: usize, tail: usize) -> String {
+    if v.len() <= head + tail + 1 {
+        return format!("{:?}", v);
+    }
+    let h: Vec<String> = v[..head].iter().map(|x| format!("{:?}", x)).collect();
+    let t: Vec<String> = v[v.len() - tail..].iter().map(|x| format!("{:?}", x)).collect();
+    format!("[{}, ..{} more.., {}]", h.join(", "), v.len() - head - tail, t.join(", "))
 }
 
 /// A value with its shape: `[]` scalar, `[n]` vector / index list / flag list, `[r,c]` matrix.
@@ -87,7 +111,13 @@ impl Val {
     pub fn show(&self) -> String {
         match self.sh.len() {
             0 => format!("{}", self.d[0]),
-            1 => format!("{:?}", self.d),
+            1 => {
+                if self.d.len() <= SHOW_FULL {
+                    format!("{:?}", self.d)
+                } else {
+                    abbr(&self.d, 24, 8)
+                }
+            }
             _ => M { r: self.sh[0], c: self.sh[1], v: self.d.clone() }.show(),
         }
     }
